@@ -509,9 +509,19 @@ class Runner:
 # verdicts
 # ------------------------------------------------------------------------------------------
 def validate(traces, angles, ctx, label):
-    fails, _ = tracecheck.validate("Trace_Survey", "Trace_Survey.cfg", traces, ctx, label,
-                                   extra={"angles": angles}, min_chunk=150, par=PARALLEL, timeout=3000)
-    return fails
+    # round-robin permutation: every TLC process gets the same mix of (cheap and expensive) trace kinds
+    n = len(traces)
+    perm = [i for r in range(PARALLEL) for i in range(r, n, PARALLEL)]
+    mixed = [traces[i] for i in perm]
+    for attempt in (1, 2):
+        try:
+            fails, _ = tracecheck.validate("Trace_Survey", "Trace_Survey.cfg", mixed, ctx, label,
+                                           extra={"angles": angles}, min_chunk=150, par=PARALLEL, timeout=3000)
+            return sorted((perm[i], l, c) for (i, l, c) in fails)
+        except tlc.MachineryError as ex:
+            # a TLC process killed from outside (SIGTERM / SIGKILL by another job on a shared machine): run it again once
+            if attempt == 2 or not ("rc=143" in str(ex) or "rc=137" in str(ex)):
+                raise
 
 
 def describe(sp, tr, l, clause):
@@ -612,9 +622,9 @@ def run(ctx):
 
 def selftest(recipes, traces, failed, angles):
     """corrupt one logged field / drop one event of accepted traces: TLC must reject each."""
-    def pick(kind, pred=lambda t: True):
+    def pick(kind, pred=lambda t: True, rpred=lambda sp: True):
         for i, (sp, t) in enumerate(zip(recipes, traces)):
-            if sp["kind"] == kind and i not in failed and pred(t) and not any(e.get("exc") for e in t["ev"]):
+            if sp["kind"] == kind and i not in failed and rpred(sp) and pred(t) and not any(e.get("exc") for e in t["ev"]):
                 return copy.deepcopy(t)
         return None
     cases = []
@@ -630,7 +640,7 @@ def selftest(recipes, traces, failed, angles):
         c = copy.deepcopy(t)
         c["ev"][0]["out"][1] = enc(fix.dec(c["ev"][0]["out"][1]) + 360)
         cases.append(("bearing_plus_360_rejected", c))
-    t = pick("cell", lambda t: t["ev"][0]["ret"] == "ret")
+    t = pick("cell", lambda t: t["ev"][0]["ret"] == "ret", lambda sp: sp["cell"][2] != NONE and sp["cell"][4] == NONE)
     if t:
         t["ev"][0]["ret"], t["ev"][0]["exct"] = "raise", "ValueError"
         cases.append(("cell_flipped_to_raise_rejected", t))
